@@ -1,72 +1,164 @@
-import AbraProofs.Lemmas.Heap
+import AbraProofs.Lemmas.HeapIso
 /-!
 # C08 — a task works on its own deep copies of captured values; channels are shared handles
 
-Model: `Abra.Heap` — per-thread heaps (address = thread id × index), `deepCopy` following
-`Value::deep_copy` as called by `SpawnTask` (`capture.deep_copy(&mut new_thread)`) with fuel for the host
-stack.  A successful copy (`some`) is what the theorems are about; for cyclic values the copy never
-succeeds (`C08_deepcopy_cyclic_counterexample`, known finding D24: the real code overflows the host stack).
+Model: `Abra.Heap` — per-thread heaps (address = thread id × index), `deepCopyM` following
+`Value::deep_copy_helper` after fix 0cb8741 (defect D24): a map from source address to copy, the copy
+recorded before its children are copied; `spawnCopy` = all captures of one `SpawnTask` with one map;
+`deepCopy` = one value with a fresh map.  The theorems hold for ALL values — shared and cyclic ones
+included; nothing is assumed but that the copy returned (`some`), and `C08_deepcopy_total` shows it does
+return, with fuel = number of reachable source objects + 1, on every well-formed graph.
+`ReachV S v w`: the value `w` is reachable from `v` through the heaps `S`.  `mapVal? M w`: the image of `w`
+under the map `M` (a scalar is itself, a pointer is the recorded copy of its target).
 -/
 namespace Abra.Heap
 
-/-- **The copy equals the original.**  If the captured value renders as `tr` before the spawn, its copy
-    in the new thread renders as `tr` in the heaps after the spawn. -/
-theorem C08_deepcopy_equal (f : Nat) (H : Heaps) (t : Nat) (v v' : Val) (H' : Heaps) (tr : Tree)
-    (hc : deepCopy f H t v = some (v', H')) (hr : render f H v = some tr) :
-    render f H' v' = some tr := by
-  have c := deepCopy_ok t f H v v' H' hc
-  obtain ⟨tr', s1, s2⟩ := c.same
-  have := render_mono c.ext f v tr hr
-  rw [s1] at this
-  rw [s2, this]
+theorem deepCopy_unpack {f : Nat} {H : Heaps} {t : Nat} {v v' : Val} {H' : Heaps}
+    (h : deepCopy f H t v = some (v', H')) : ∃ M', deepCopyM f H H [] t v = some (v', H', M') := by
+  unfold deepCopy at h
+  cases hc : deepCopyM f H H [] t v with
+  | none => simp [hc] at h
+  | some r =>
+    obtain ⟨a, b, c⟩ := r
+    simp only [hc, Option.map_some, Option.some.injEq, Prod.mk.injEq] at h
+    obtain ⟨rfl, rfl⟩ := h
+    exact ⟨c, rfl⟩
 
-/-- … and the original still renders as before (the copy only allocates). -/
-theorem C08_deepcopy_preserves_original (f : Nat) (H : Heaps) (t : Nat) (v v' : Val) (H' : Heaps)
-    (hc : deepCopy f H t v = some (v', H')) (u : Val) (tr : Tree) (hr : render f H u = some tr) :
-    render f H' u = some tr :=
-  render_mono (deepCopy_ok t f H v v' H' hc).ext f u tr hr
+theorem spawnCopy_unpack {f : Nat} {H : Heaps} {t : Nat} {caps caps' : List Val} {H' : Heaps}
+    (h : spawnCopy f H t caps = some (caps', H')) :
+    ∃ M', copyListM (fun H1 M w => deepCopyM f H H1 M t w) H [] caps = some (caps', H', M') := by
+  unfold spawnCopy at h
+  cases hc : copyListM (fun H1 M w => deepCopyM f H H1 M t w) H [] caps with
+  | none => simp [hc] at h
+  | some r =>
+    obtain ⟨a, b, c⟩ := r
+    simp only [hc, Option.map_some, Option.some.injEq, Prod.mk.injEq] at h
+    obtain ⟨rfl, rfl⟩ := h
+    exact ⟨c, rfl⟩
 
-/-- **The copy is disjoint from everything else.**  Every object reachable from the copy belongs to the new
-    thread's heap. -/
+/-- **The copy always finishes (fuel).**  On a well-formed source graph, if `L` lists the objects reachable
+    from the value, `|L| + 1` levels of host stack are enough — cyclic and shared values included. -/
+theorem C08_deepcopy_total (H : Heaps) (t : Nat) (v : Val) (L : List Addr) (hwf : WF H v)
+    (hL : ∀ w a, ReachV H v w → ptr? w = some a → a ∈ L) :
+    ∃ r, deepCopy (L.length + 1) H t v = some r := by
+  obtain ⟨r, hr⟩ := deepCopyM_total H t (L.length + 1) H [] v L hwf (fun w a hw ha _ => hL w a hw ha) (Nat.lt_succ_self _)
+  exact ⟨(r.1, r.2.1), by simp [deepCopy, hr]⟩
+
+/-- **The copy is isomorphic to the source graph.**  There is a map `M` from source addresses to copies with:
+    the result is the image of the argument; every recorded copy is a finished object of the new thread
+    holding exactly the image of its source object (`Iso.done`: same kind, same scalars, every pointer
+    replaced by the copy of its target — so two paths that reach one source object reach one copy, and a cycle
+    stays a cycle); distinct source objects have distinct copies (`Iso.inj`); every value reachable from the
+    source has an image (all of it was copied) and every value reachable from the copy is such an image (the
+    copy reaches nothing else): `M` is a bijection between the two reachable graphs.  Source objects are
+    untouched (`Ext`). -/
+theorem C08_deepcopy_iso (f : Nat) (H : Heaps) (t : Nat) (v v' : Val) (H' : Heaps)
+    (hc : deepCopy f H t v = some (v', H')) :
+    ∃ M, mapVal? M v = some v' ∧ Iso H H' t M ∧ Ext H H' ∧
+      (∀ w, ReachV H v w → ∃ w', mapVal? M w = some w') ∧
+      (∀ w', ReachV H' v' w' → ∃ w, ReachV H v w ∧ mapVal? M w = some w') := by
+  obtain ⟨M, hm⟩ := deepCopy_unpack hc
+  obtain ⟨p, hv⟩ := deepCopyM_post H t f H [] v v' H' M hm
+  have iso := iso_of_post p
+  exact ⟨M, hv, iso, p.ext, iso_cover iso hv, iso_onto iso hv⟩
+
+/-- **Sharing is preserved, and only sharing.**  Two reachable pointers have the same copy exactly when they
+    point to the same source object. -/
+theorem C08_deepcopy_sharing (f : Nat) (H : Heaps) (t : Nat) (v v' : Val) (H' : Heaps)
+    (hc : deepCopy f H t v = some (v', H')) :
+    ∃ M, mapVal? M v = some v' ∧
+      ∀ w1 w2 a1 a2 c1 c2 x1 x2, ReachV H v w1 → ReachV H v w2 → ptr? w1 = some a1 → ptr? w2 = some a2 →
+        mapVal? M w1 = some c1 → mapVal? M w2 = some c2 → ptr? c1 = some x1 → ptr? c2 = some x2 →
+        (a1 = a2 ↔ x1 = x2) := by
+  obtain ⟨M, hv, iso, _, _, _⟩ := C08_deepcopy_iso f H t v v' H' hc
+  refine ⟨M, hv, ?_⟩
+  intro w1 w2 a1 a2 c1 c2 x1 x2 _ _ p1 p2 m1 m2 q1 q2
+  simp only [mapVal?, p1] at m1
+  simp only [mapVal?, p2] at m2
+  constructor
+  · intro h; subst h
+    rw [m1] at m2; cases m2
+    rw [q1] at q2; exact Option.some.inj q2
+  · intro h; subst h
+    exact iso.inj a1 a2 c1 c2 x1 m1 m2 q1 q2
+
+/-- **One map per `SpawnTask`.**  The captures of one task are copied as one graph: the same isomorphism
+    statement for the list of captures, so an object reachable from two captures is copied once. -/
+theorem C08_spawn_copies_one_graph (f : Nat) (H : Heaps) (t : Nat) (caps caps' : List Val) (H' : Heaps)
+    (hc : spawnCopy f H t caps = some (caps', H')) :
+    ∃ M, mapList? M caps = some caps' ∧ Iso H H' t M ∧ Ext H H' := by
+  obtain ⟨M, hm⟩ := spawnCopy_unpack hc
+  obtain ⟨p, hl⟩ := copyListM_post H t _ (fun H1 M1 w w' H2 M2 h => deepCopyM_post H t f H1 M1 w w' H2 M2 h)
+    caps H [] caps' H' M hm
+  exact ⟨M, hl, iso_of_post p, p.ext⟩
+
+/-- **The copy equals the original** (values that render, i.e. acyclic within the fuel `g`): the copy renders
+    exactly as the captured value did. -/
+theorem C08_deepcopy_equal (f g : Nat) (H : Heaps) (t : Nat) (v v' : Val) (H' : Heaps) (tr : Tree)
+    (hc : deepCopy f H t v = some (v', H')) (hr : render g H v = some tr) :
+    render g H' v' = some tr := by
+  obtain ⟨M, hv, iso, _, _, _⟩ := C08_deepcopy_iso f H t v v' H' hc
+  exact iso_render iso g v v' tr hv hr
+
+/-- … and every value of the spawning side still renders as before (the copy only allocates). -/
+theorem C08_deepcopy_preserves_original (f g : Nat) (H : Heaps) (t : Nat) (v v' : Val) (H' : Heaps)
+    (hc : deepCopy f H t v = some (v', H')) (u : Val) (tr : Tree) (hr : render g H u = some tr) :
+    render g H' u = some tr := by
+  obtain ⟨M, _, _, hext, _, _⟩ := C08_deepcopy_iso f H t v v' H' hc
+  exact render_mono hext g u tr hr
+
+/-- **The copy is disjoint from everything else**: every object reachable from the copy — through any
+    path, cycles included — belongs to the new thread's heap. -/
 theorem C08_deepcopy_disjoint (f : Nat) (H : Heaps) (t : Nat) (v v' : Val) (H' : Heaps)
     (hc : deepCopy f H t v = some (v', H')) :
-    ∃ xs, addrs f H' v' = some xs ∧ ∀ a ∈ xs, a.tid = t :=
-  (deepCopy_ok t f H v v' H' hc).own
+    ∀ w' x, ReachV H' v' w' → ptr? w' = some x → x.tid = t := by
+  obtain ⟨M, hv, iso, _, _, _⟩ := C08_deepcopy_iso f H t v v' H' hc
+  exact iso_owned iso hv
 
 /-- **Channels are the exception**: the copy of a channel value is a new handle object in the new thread's
-    heap that names the same queue — reads and writes through either handle meet in one queue. -/
+    heap that names the same queue. -/
 theorem C08_deepcopy_channel_shared (f : Nat) (H : Heaps) (t : Nat) (a : Addr) (q : Nat)
     (hl : lookup H a = some (.chan q)) :
     ∃ a' H', deepCopy (f + 1) H t (.chan a) = some (.chan a', H') ∧ a'.tid = t ∧ lookup H' a' = some (.chan q) := by
-  refine ⟨(alloc H t (.chan q)).1, (alloc H t (.chan q)).2, ?_, rfl, lookup_alloc_new _ _ _⟩
-  simp [deepCopy, hl]
+  refine ⟨(alloc H t (.chan q)).1, putObj (alloc H t (.chan q)).2 (alloc H t (.chan q)).1 (.chan q), ?_, rfl, ?_⟩
+  · simp [deepCopy, deepCopyM, ptr?, mlookup, hl, tagOk, Obj.kids, Obj.withKids, copyListM, retag]
+  · exact lookup_putObj_same _ _ _ (by simp [alloc])
 
-/-- **Isolation.**  If everything reachable from a value belongs to thread `b` ("a thread's reachable
-    addresses are its own"), no store into an object of another thread and no teardown of another thread
-    changes how the value renders. -/
-theorem C08_threads_isolated (f : Nat) (H : Heaps) (b : Nat) (u : Val) (xs : List Addr)
-    (hx : addrs f H u = some xs) (hown : ∀ a ∈ xs, a.tid = b) :
-    (∀ (a : Addr) (i : Nat) (w : Val), a.tid ≠ b → render f (setSlot H a i w) u = render f H u) ∧
-    (∀ t, t ≠ b → render f (dropThread H t) u = render f H u) := by
+/-- **Isolation.**  If every object reachable from a value belongs to thread `b`, then no store into an
+    object of another thread and no teardown of another thread changes anything reachable from it: the same
+    objects at the same addresses, the same reachable graph, the same rendering at every depth. -/
+theorem C08_threads_isolated (H : Heaps) (b : Nat) (u : Val)
+    (hown : ∀ w x, ReachV H u w → ptr? w = some x → x.tid = b) :
+    (∀ (a : Addr) (i : Nat) (z : Val), a.tid ≠ b →
+      (∀ w x, ReachV H u w → ptr? w = some x → lookup (setSlot H a i z) x = lookup H x) ∧
+      (∀ w, ReachV H u w ↔ ReachV (setSlot H a i z) u w) ∧
+      (∀ g, render g (setSlot H a i z) u = render g H u)) ∧
+    (∀ t, t ≠ b →
+      (∀ w x, ReachV H u w → ptr? w = some x → lookup (dropThread H t) x = lookup H x) ∧
+      (∀ w, ReachV H u w ↔ ReachV (dropThread H t) u w) ∧
+      (∀ g, render g (dropThread H t) u = render g H u)) := by
   constructor
-  · intro a i w hne
-    exact render_congr f u xs hx (fun x hxm => lookup_setSlot_other H a i w x (by rw [hown x hxm]; exact fun h => hne h.symm))
+  · intro a i z hne
+    have hag : ∀ w x, ReachV H u w → ptr? w = some x → lookup (setSlot H a i z) x = lookup H x :=
+      fun w x hw hx => lookup_setSlot_other H a i z x (by rw [hown w x hw hx]; exact fun h => hne h.symm)
+    exact ⟨hag, reach_congr hag, fun g => render_congr_reach g u hag⟩
   · intro t hne
-    exact render_congr f u xs hx (fun x hxm => lookup_dropThread_other H t x (by rw [hown x hxm]; exact fun h => hne h.symm))
+    have hag : ∀ w x, ReachV H u w → ptr? w = some x → lookup (dropThread H t) x = lookup H x :=
+      fun w x hw hx => lookup_dropThread_other H t x (by rw [hown w x hw hx]; exact fun h => hne h.symm)
+    exact ⟨hag, reach_congr hag, fun g => render_congr_reach g u hag⟩
 
-/-- **Spawn, both directions.**  After a capture was copied into the new thread `t`:
-    mutations made by any other thread (the spawning code included) are invisible in the copy, and
-    mutations made by the task inside its own heap are invisible in every value whose objects belong to
-    another thread (the spawner's original included, under the ownership invariant). -/
+/-- **Spawn, both directions.**  After a capture was copied into the new thread `t`: stores made by any
+    other thread (the spawning code included) are invisible in the copy, and stores made by the task inside
+    its own heap are invisible in every value whose objects belong to another thread. -/
 theorem C08_spawn_isolated (f : Nat) (H : Heaps) (t : Nat) (v v' : Val) (H' : Heaps)
     (hc : deepCopy f H t v = some (v', H')) :
-    (∀ (a : Addr) (i : Nat) (w : Val), a.tid ≠ t → render f (setSlot H' a i w) v' = render f H' v') ∧
-    (∀ (p : Nat) (u : Val) (xs : List Addr), p ≠ t → addrs f H' u = some xs → (∀ a ∈ xs, a.tid = p) →
-      ∀ (a : Addr) (i : Nat) (w : Val), a.tid = t → render f (setSlot H' a i w) u = render f H' u) := by
-  obtain ⟨xs, hx, hown⟩ := C08_deepcopy_disjoint f H t v v' H' hc
-  refine ⟨(C08_threads_isolated f H' t v' xs hx hown).1, ?_⟩
-  intro p u ys hp hy hyown a i w ha
-  exact (C08_threads_isolated f H' p u ys hy hyown).1 a i w (by rw [ha]; exact fun h => hp h.symm)
+    (∀ (a : Addr) (i : Nat) (z : Val), a.tid ≠ t → ∀ g, render g (setSlot H' a i z) v' = render g H' v') ∧
+    (∀ (p : Nat) (u : Val), p ≠ t → (∀ w x, ReachV H' u w → ptr? w = some x → x.tid = p) →
+      ∀ (a : Addr) (i : Nat) (z : Val), a.tid = t → ∀ g, render g (setSlot H' a i z) u = render g H' u) := by
+  have hown := C08_deepcopy_disjoint f H t v v' H' hc
+  refine ⟨fun a i z hne => ((C08_threads_isolated H' t v' hown).1 a i z hne).2.2, ?_⟩
+  intro p u hp hu a i z ha
+  exact ((C08_threads_isolated H' p u hu).1 a i z (by rw [ha]; exact fun h => hp h.symm)).2.2
 
 /-- a nested value in thread 1's heap: `Outer { inner: Box { v: 7, s: "ab" }, xs: [1, 2] }` -/
 def exH : Heaps := fun t =>
@@ -74,20 +166,52 @@ def exH : Heaps := fun t =>
   else []
 def exV : Val := .struct ⟨1, 3⟩
 
-example : ∃ p, deepCopy 5 exH 2 exV = some p ∧ render 5 exH exV = some (.struct [.struct [.int 7, .str [97, 98]], .array [.int 1, .int 2]]) ∧
-    addrs 5 p.2 p.1 = some [⟨2, 3⟩, ⟨2, 1⟩, ⟨2, 0⟩, ⟨2, 2⟩] := ⟨_, rfl, rfl, rfl⟩
+example : ∃ p, deepCopy 5 exH 2 exV = some p ∧
+    render 5 exH exV = some (.struct [.struct [.int 7, .str [97, 98]], .array [.int 1, .int 2]]) ∧
+    render 5 p.2 p.1 = some (.struct [.struct [.int 7, .str [97, 98]], .array [.int 1, .int 2]]) := ⟨_, rfl, rfl, rfl⟩
 
-/-- a struct whose field is the struct itself -/
-def cycH : Heaps := fun t => if t = 1 then [.struct [.struct ⟨1, 0⟩]] else []
+/-- a struct whose array field contains the struct itself, and the same array referenced twice -/
+def cycH : Heaps := fun t =>
+  if t = 1 then [.struct [.int 1, .array ⟨1, 1⟩, .array ⟨1, 1⟩], .array [.struct ⟨1, 0⟩]] else []
 
-/-- **Finding D24.**  A cyclic captured value is never copied: whatever the depth allowed, the copy runs
-    out of stack (the real code aborts the host with a stack overflow). -/
-theorem C08_deepcopy_cyclic_counterexample : ∀ f t, deepCopy f cycH t (.struct ⟨1, 0⟩) = none := by
+/-- the repaired copy of the cyclic, shared value: one struct, one array, the cycle and the sharing kept -/
+example : ∃ H', deepCopy 3 cycH 2 (.struct ⟨1, 0⟩) = some (.struct ⟨2, 0⟩, H') ∧
+    lookup H' ⟨2, 0⟩ = some (.struct [.int 1, .array ⟨2, 1⟩, .array ⟨2, 1⟩]) ∧
+    lookup H' ⟨2, 1⟩ = some (.array [.struct ⟨2, 0⟩]) ∧ lookup H' ⟨2, 2⟩ = none := ⟨_, rfl, rfl, rfl, rfl⟩
+
+example : WF cycH (.struct ⟨1, 0⟩) ∧ ∃ r, deepCopy 3 cycH 2 (.struct ⟨1, 0⟩) = some r := ⟨by
+  intro w a hw hp
+  have : ∀ w, ReachV cycH (.struct ⟨1, 0⟩) w → w = .struct ⟨1, 0⟩ ∨ w = .int 1 ∨ w = .array ⟨1, 1⟩ := by
+    intro w hw
+    induction hw with
+    | root => exact Or.inl rfl
+    | step _ hp hl hc ih =>
+      rcases ih with rfl | rfl | rfl
+      · simp [ptr?] at hp; subst hp
+        simp [lookup, cycH] at hl; subst hl
+        simp [Obj.kids] at hc; rcases hc with rfl | rfl | rfl <;> simp
+      · simp [ptr?] at hp
+      · simp [ptr?] at hp; subst hp
+        simp [lookup, cycH] at hl; subst hl
+        simp [Obj.kids] at hc; subst hc; simp
+  rcases this w hw with rfl | rfl | rfl
+  · simp [ptr?] at hp; subst hp; exact ⟨_, rfl, rfl⟩
+  · simp [ptr?] at hp
+  · simp [ptr?] at hp; subst hp; exact ⟨_, rfl, rfl⟩, _, rfl⟩
+
+/-- **Before fix 0cb8741 (defect D24)** the copy of a cyclic value never finished, whatever the stack depth:
+    the pre-repair `deep_copy` (`deepCopyOld`, no map) runs out of fuel on the value above. -/
+theorem C08_deepcopy_prerepair_cyclic : ∀ f t, deepCopyOld f cycH t (.struct ⟨1, 0⟩) = none := by
   intro f t
-  induction f with
-  | zero => rfl
-  | succ f ih =>
-    have hl : lookup cycH ⟨1, 0⟩ = some (.struct [.struct ⟨1, 0⟩]) := rfl
-    simp only [deepCopy, hl, copyList, ih]
+  induction f using Nat.strongRecOn with
+  | _ f ih =>
+    match f with
+    | 0 => rfl
+    | 1 => rfl
+    | f + 2 =>
+      have hl : lookup cycH ⟨1, 0⟩ = some (.struct [.int 1, .array ⟨1, 1⟩, .array ⟨1, 1⟩]) := rfl
+      have hl2 : lookup cycH ⟨1, 1⟩ = some (.array [.struct ⟨1, 0⟩]) := rfl
+      have := ih f (by omega)
+      simp [deepCopyOld, hl, hl2, copyListOld, this]
 
 end Abra.Heap
